@@ -37,6 +37,7 @@ REWRITES = {
     'R21': 'closure whose only parameter is the wildcard `|_|` gets a named, unused parameter `|_vx_w|` (Verus accepts only variables as closure parameters)',
     'R2c': 'format! whose template has only `{}` / `{ident}` placeholders becomes the concatenation of its literal pieces and of the Display strings of its arguments (str, String, Cow<str>): vx_cat(vx_lit(..), VxS::vx_s(&arg)) -- used where the formatted string is a key the property depends on',
     'R1b': '`unreachable!(\"..\", args)` / `panic!(\"..\", args)` lose their message and become `unreachable!()` (the arm stays an obligation: it must be proved unreachable)',
+    'R22': 'by-value receiver `mut self` becomes `self` with `let mut vx_self = self;` first in the body and every `self` of the body renamed (Verus does not support `mut self`; the binding mode of a by-value parameter is not part of the interface)',
     'R12': 'derive(Default) expanded to the field-wise impl the derive generates (inside verus!, verified, not assumed)',
 }
 
@@ -494,7 +495,7 @@ pub assume_specification [<{q} as PartialEq>::eq] (a: &{q}, b: &{q}) -> (r: bool
     # ---------- functions ----------
     def fn(self, path, impl, fn, requires=(), ensures=(), loops=None, ghost=(), subst=(), trait=None,
            erase_async=False, mut_self=False, ret_name='r', decreases=None, keep_macros=(), external_body=False,
-           let_chains=True, fmt=True, hash_loops=(), vis='pub', recommends=(), trait_full=None, keep_arms=None, as_inherent=False, copied_loops=(), eta=(), closures=None, continue_guards=(), deref_loops=(), attrs=(), clone_loops=()):
+           let_chains=True, fmt=True, hash_loops=(), vis='pub', recommends=(), trait_full=None, keep_arms=None, as_inherent=False, copied_loops=(), eta=(), closures=None, continue_guards=(), deref_loops=(), attrs=(), clone_loops=(), into_values_loops=()):
         """Extract one fn verbatim and splice its contract.  Returns a list of Seg (to be put in an impl block).
         requires/ensures: list of (name, text).  loops: {ordinal: dict(invariant=[(name,text)], decreases=text, iter='vx_it')}
         ghost: list of (anchor, text) with anchor in ('body_start',), ('body_end',), ('loop_start',k), ('loop_end',k),
@@ -595,6 +596,18 @@ pub assume_specification [<{q} as PartialEq>::eq] (a: &{q}, b: &{q}) -> (r: bool
             for s, t in e['awaits']:
                 edits.append((s, t, []))
                 self._rw('R10')
+        # R22: by-value receiver with binding mode `mut self` (Verus: "mut self" unsupported) -> `self`, and the body works on
+        # `let mut vx_self = self;` (every `self` token of the body renamed); the binding mode of a by-value parameter is not
+        # part of the function's interface
+        if e['inputs'] and not external_body and src[e['inputs'][0][0]:e['inputs'][0][1]].decode().replace(' ', '') == 'mutself':
+            i0, i1 = e['inputs'][0]
+            edits.append((i0, i1, [Seg('self')]))
+            btxt22 = src[bs:be].decode()
+            for m22 in re.finditer(r'(?<![A-Za-z0-9_])self(?![A-Za-z0-9_])', btxt22):
+                s22 = bs + len(btxt22[:m22.start()].encode())
+                edits.append((s22, s22 + 4, [Seg('vx_self')]))
+            edits.append((bs + 1, bs + 1, [Seg(' let mut vx_self = self; ')]))
+            self._rw('R22')
         # R7
         if mut_self:
             inp = e['inputs'][0]
@@ -781,6 +794,19 @@ pub assume_specification [<{q} as PartialEq>::eq] (a: &{q}, b: &{q}) -> (r: bool
             edits.append((s20, o20, [Seg('(')]))
             edits.append((c20, c20 + 1, [Seg(')')]))
             self._rw('R20')
+        # R19 (values variant): `for V in MAP.into_values()` -> `for vx_v in MAP.values()` with `let V = vx_v.clone();` first in the body
+        for k in into_values_loops:
+            L = e['loops'][k]
+            s, t = L['expr']
+            ex = src[s:t].decode()
+            m19 = re.search(r'\s*\.into_values\(\)\s*$', ex)
+            pat = src[L['pat'][0]:L['pat'][1]].decode().strip()
+            if L['kind'] != 'for' or not m19 or not re.fullmatch(r'[A-Za-z_][A-Za-z0-9_]*', pat):
+                raise ToolLimit(f'{fn}: R19 wants `for V in MAP.into_values()` at loop {k}')
+            edits.append((L['pat'][0], L['pat'][1], [Seg(f'vx_v{k}')]))
+            edits.append((s + len(ex[:m19.start()].encode()), t, [Seg('.values()')]))
+            edits.append((L['body'][0] + 1, L['body'][0] + 1, [Seg(f' let {pat} = vx_v{k}.clone(); ')]))
+            self._rw('R19')
         # R1 / R2
         for m in e['macros']:
             nm = m['name']
